@@ -77,6 +77,9 @@ fn main() {
         _ => usage(),
     };
     let ctx = Ctx::new(&id, tier, seed, false);
+    if args.get(3).map(|s| s.as_str()) == Some("--plain-child") {
+        std::process::exit(checks::c14::plain_child(&ctx));
+    }
     let Some(plan) = checks::plan(&ctx) else {
         eprintln!("unknown property {}", id);
         std::process::exit(2);
